@@ -158,21 +158,33 @@ type CtxObj struct {
 	external  bool // caller-owned context: may be cancelled at any observation
 	label     string
 	vals      [][2]Value
+	children  []*CtxObj
 }
 
 var ctxT types.Type = types.NewNamed(types.NewTypeName(0, nil, "symgo.ctx", nil), types.NewStruct(nil, nil), nil)
 
 func (it *Interp) newCtx(parent *CtxObj, label string) *CtxObj {
 	it.chanSeq++
-	return &CtxObj{parent: parent, label: label, done: &ChanObj{cp: 0, id: it.chanSeq, label: "ctx.Done", elem: types.NewStruct(nil, nil)}}
+	c := &CtxObj{parent: parent, label: label, done: &ChanObj{cp: 0, id: it.chanSeq, label: "ctx.Done", elem: types.NewStruct(nil, nil)}}
+	if parent != nil {
+		parent.children = append(parent.children, c)
+		if parent.cancelled {
+			c.cancelled, c.err, c.done.closed = true, parent.err, true
+		}
+	}
+	return c
 }
 
+// ctxCancel cancels c and, like the real context tree, every context derived from it.
 func (it *Interp) ctxCancel(c *CtxObj, err string) {
 	if !c.cancelled {
 		c.cancelled = true
 		c.err = err
 		if !c.done.closed {
 			c.done.closed = true
+		}
+		for _, ch := range c.children {
+			it.ctxCancel(ch, err)
 		}
 	}
 }
@@ -304,7 +316,10 @@ func hContext(it *Interp, fn *ssa.Function, a []Value) Value {
 	name, _ := a[0].(*StrV).concrete()
 	c := it.newCtx(nil, name)
 	b := it.term(a[1], "cancellable")
-	c.external = b.IsTrue()
+	c.external = it.branch(b, "cancellable context")
+	if c.external {
+		it.externalCtxs = append(it.externalCtxs, c)
+	}
 	return &IfaceV{T: ctxT, V: c}
 }
 
